@@ -310,10 +310,18 @@ def run_dev(sc, label, role, devs, hon_log=None):
 
     def tweak(p, fl):
         conn = p.c if role == "client" else p.s
+        # writes into the void succeed here: what the deviant peer *reads*
+        # after the victim's alert is part of the observation
+        p.link.peer_gone_errno = None
         if devs and any(x[0] in ("insert", "replace") and x[2] == "heartbeat"
                         for x in devs):
-            (fl.cset if role == "client" else
-             fl.sset).use_heartbeat_extension = False
+            from tlslite.handshakesettings import HandshakeSettings
+            if role == "client":
+                fl.cset = fl.cset or HandshakeSettings()
+                fl.cset.use_heartbeat_extension = False
+            else:
+                fl.sset = fl.sset or HandshakeSettings()
+                fl.sset.use_heartbeat_extension = False
         rw = Rewriter(devs, hon_log) if devs else None
         holder["d"] = adv.Deviant(conn, rw)
         if rw is not None:
@@ -577,6 +585,37 @@ def run_case(ctx, cid, P):
             verdict = "rejected:" + cls
             if cls == "local_alert":
                 ctx.cell("alert", "%s:%d" % (vrole, vt.exc.description))
+                # the alert has to be readable by the peer: sent under the
+                # keys the peer expects at that point (TLS 1.3 has three
+                # epochs per direction around the Finished messages)
+                at2 = R.tc if role == "client" else R.ts
+                a_out = outcome(at2)
+                if a_out[0] == "exc" and isinstance(at2.exc, OSError) and \
+                        not d.conn.closed:
+                    # its write hit the closed socket first: let it read
+                    asock = R.p.csock if role == "client" else R.p.ssock
+                    t3 = drive.Task("peer-read", drive.aread(d.conn, None, 1),
+                                    asock)
+                    drive.run([t3], R.p.link, max_steps=2000)
+                    a_out = outcome(t3)
+                if fam == "tls13":
+                    ctx.cell("peer_saw", "%s|%s" % (
+                        a_out[0], a_out[1] if len(a_out) > 1 else ""))
+                    hn = [tname(t) for t in hon_seq]
+                    last_hello = max([i for i, t in enumerate(hn)
+                                      if t in ("ClientHello", "ServerHello")]
+                                     or [0])
+                    # only deviations after the hello messages keep both
+                    # transcripts (hence the traffic keys) in step
+                    keys_in_step = all(x[1] > last_hello for x in devs)
+                    if a_out[0] == "local_alert" and a_out[1] in (20, 21, 50) \
+                            and "straddle" not in dclass and keys_in_step:
+                        ctx.violation(dict(key,
+                                           clause="alert_unreadable_by_peer",
+                                           peer=str(a_out)), W,
+                                      "victim %s sent alert %d but the peer "
+                                      "could not decrypt it (%s)" % (
+                                          vrole, vt.exc.description, a_out))
             off = first_offending(seq, hon_seq, role, sc.ver)
             at = R.tc if role == "client" else R.ts
             acls = mon.classify_exc(at.exc) if at.exc else at.status
